@@ -21,7 +21,14 @@ type VM struct {
 	Thread     int // scheduler thread that executes it (-1 until its first instruction)
 	Steps      int
 	AfterAbort int // instructions dispatched while the abort flag was already set
+	lastPoint  int // scheduler step count of the executing thread at the previous instruction
+	sincePoint int // instructions dispatched since the thread's last scheduling point
 }
+
+// MaxStepsBetweenPoints bounds how many instructions a VM may dispatch without reaching a scheduling
+// point. Every dispatched instruction is preceded by the atomic load of the abort flag (a scheduling
+// point), so exceeding the bound means the abort flag is no longer polled on that path.
+const MaxStepsBetweenPoints = 100000
 
 // Tracker installs itself as tengo.VerifNewVM for the lifetime of one world.
 type Tracker struct {
@@ -43,6 +50,13 @@ func New(s *vsched.Sched) *Tracker {
 			}
 			if v.VerifAborting() != 0 {
 				info.AfterAbort++
+			}
+			if n := s.ThreadSteps(info.Thread); n != info.lastPoint {
+				info.lastPoint, info.sincePoint = n, 0
+			}
+			info.sincePoint++
+			if info.sincePoint > MaxStepsBetweenPoints {
+				panic(fmt.Sprintf("VM dispatched more than %d instructions without polling the abort flag (no scheduling point reached)", MaxStepsBetweenPoints))
 			}
 		})
 	}
